@@ -1020,9 +1020,18 @@ impl<T: Smp> Inst<T> {
         call_defaults(ev.as_object_mut().unwrap());
         cx.pending(&ev);
         let res = &mut self.res;
+        let via_vec = gs(op, "via", "") == "vec";
         let h0 = heap_events();
         let r = catch_unwind(AssertUnwindSafe(|| {
-            if rel {
+            if via_vec {
+                // through the object-safe wrapper trait
+                let v = res.as_vec();
+                if rel {
+                    v.set_resample_ratio_relative(x, ramp)
+                } else {
+                    v.set_resample_ratio(x, ramp)
+                }
+            } else if rel {
                 res.set_ratio_rel(x, ramp)
             } else {
                 res.set_ratio(x, ramp)
@@ -1127,6 +1136,26 @@ impl<T: Smp> Inst<T> {
             }
             Ok(Ok(())) => {
                 m.insert("res".into(), json!("ok"));
+                if name == "getters" {
+                    // the same getters through the object-safe VecResampler wrapper
+                    let v = self.res.as_vec();
+                    let c = |u: usize| -> i64 {
+                        if u > (1usize << 30) {
+                            -1
+                        } else {
+                            u as i64
+                        }
+                    };
+                    let gv = json!({"in_next":c(v.input_frames_next()),"in_max":c(v.input_frames_max()),
+                        "out_next":c(v.output_frames_next()),"out_max":c(v.output_frames_max()),
+                        "delay":c(v.output_delay()),"ch":c(v.nbr_channels())});
+                    let ib = v.input_buffer_allocate(true);
+                    let ob = v.output_buffer_allocate(true);
+                    m.insert("gv".into(), gv);
+                    m.insert("vec_alloc".into(), json!([ib.len() as i64,
+                        ib.iter().map(|x| x.len()).min().unwrap_or(0) as i64,
+                        ob.len() as i64, ob.iter().map(|x| x.len()).min().unwrap_or(0) as i64]));
+                }
                 if name == "reset" {
                     self.pos = 0;
                     for h in self.stream_hash.iter_mut() {
@@ -1183,6 +1212,56 @@ fn cmp_event(insts: &[Option<Slot>], op: &Value) -> Value {
         m.insert("units".into(), json!(if units.is_finite() { units.min(1.0e9) as i64 } else { 1_000_000_000 }));
         m.insert("peak".into(), fx(peak));
         m.insert("bits".into(), json!(bits as i64));
+    }
+    ev
+}
+
+/// Numeric guard of C08: instance a is fed the index signal (its outputs are instant + 1), instance
+/// b the polynomial p(n) with identical calls: b's outputs must equal p(instant), in units of
+/// eps(b) * max|p| over the compared frames. Frames whose window touches the zero pre-roll are skipped.
+fn cmp_poly_event(insts: &[Option<Slot>], op: &Value) -> Value {
+    let a = gi(op, "a", 0) as usize;
+    let b = gi(op, "b", 1) as usize;
+    let mut ev = json!({"ev":"cmp","id":a as i64,"a":a as i64,"b":b as i64,"n":0,"units":0,"peak":fx(0.0),"bits":64,
+        "bound": gi(op, "bound", 0), "poly": true});
+    if let (Some(Some(sa)), Some(Some(sb))) = (insts.get(a), insts.get(b)) {
+        let (va, _, _) = last_out_of(sa);
+        let (vb, tb, _) = last_out_of(sb);
+        let coef: Vec<f64> = match &sb.0 {
+            AnyInst::F32(i) => match &i.signal { Signal::Poly(c) => c.clone(), _ => vec![] },
+            AnyInst::F64(i) => match &i.signal { Signal::Poly(c) => c.clone(), _ => vec![] },
+        };
+        let eps = if tb == 32 { f32::EPSILON as f64 } else { f64::EPSILON };
+        let p = |x: f64| -> f64 {
+            let mut v = 0.0;
+            for k in (0..coef.len()).rev() {
+                v = v * x + coef[k];
+            }
+            v
+        };
+        let n = va.len().min(vb.len());
+        let mut scale = 1.0f64;
+        let mut diff = 0.0f64;
+        let mut cnt = 0i64;
+        for k in 0..n {
+            let tau = va[k] - 1.0;
+            if tau < 4.0 {
+                continue;
+            }
+            let e = p(tau);
+            scale = scale.max(e.abs());
+            let d = (vb[k] - e).abs();
+            if !(d <= diff) {
+                diff = d;
+            }
+            cnt += 1;
+        }
+        let units = (diff / (eps * scale)).ceil();
+        let m = ev.as_object_mut().unwrap();
+        m.insert("n".into(), json!(cnt));
+        m.insert("units".into(), json!(if units.is_finite() { units.min(1.0e9) as i64 } else { 1_000_000_000 }));
+        m.insert("peak".into(), fx(scale));
+        m.insert("bits".into(), json!(tb as i64));
     }
     ev
 }
@@ -1315,6 +1394,10 @@ fn exec_op(insts: &mut Vec<Option<Slot>>, op: &Value, cx: &mut Ctx) {
     }
     if name == "cmp" {
         cx.emit(cmp_event(insts, op));
+        return;
+    }
+    if name == "cmp_poly" {
+        cx.emit(cmp_poly_event(insts, op));
         return;
     }
     if name == "kernels" {
